@@ -223,3 +223,47 @@ func VerifC20Huge() {
 	verifAssert("C20.huge.marshal", err == nil && err2 == nil && verifEqBytes(cm, ref))
 	verifCover("C20.huge.end")
 }
+
+// headers with many extensions (any per-header lookup structure a header may
+// grow beyond a handful of entries has to be cloned too): add and delete on
+// one side, every id queried on the other
+func VerifC20ManyExtensions() {
+	var p Packet
+	verifFixedFields(&p.Header, 0)
+	n := verifPick("extensions", []int{9, 12})
+	var vals [][]byte
+	for id := 1; id <= n; id++ {
+		v := verifBytes("val", 1)
+		verifAssert("C20.many.set", p.SetExtension(uint8(id), v) == nil)
+		vals = append(vals, v)
+	}
+	fromWire := verifCase("fromWire", 0, 1) == 1
+	if fromWire {
+		raw, err := p.Marshal()
+		verifAssert("C20.many.marshal", err == nil)
+		var q Packet
+		verifAssert("C20.many.unmarshal", q.Unmarshal(raw) == nil)
+		p = q
+		// one more id, as a receiver that annotates the packet would add
+		verifAssert("C20.many.set-after-wire", p.SetExtension(14, []byte{0x5A}) == nil)
+	}
+	c := p.Clone()
+	if verifCase("mutateClone", 0, 1) == 1 {
+		verifAssert("C20.many.del", c.DelExtension(3) == nil)
+		verifAssert("C20.many.add", c.SetExtension(13, []byte{1, 2}) == nil)
+		for id := 1; id <= n; id++ {
+			verifAssert("C20.many.orig-keeps", verifEqBytes(p.GetExtension(uint8(id)), vals[id-1]))
+		}
+		verifAssert("C20.many.orig-no-13", p.GetExtension(13) == nil)
+		verifAssert("C20.many.clone-no-3", c.GetExtension(3) == nil && verifEqBytes(c.GetExtension(13), []byte{1, 2}))
+	} else {
+		verifAssert("C20.many.del", p.DelExtension(3) == nil)
+		verifAssert("C20.many.add", p.SetExtension(13, []byte{1, 2}) == nil)
+		for id := 1; id <= n; id++ {
+			verifAssert("C20.many.clone-keeps", verifEqBytes(c.GetExtension(uint8(id)), vals[id-1]))
+		}
+		verifAssert("C20.many.clone-no-13", c.GetExtension(13) == nil)
+		verifAssert("C20.many.orig-no-3", p.GetExtension(3) == nil && verifEqBytes(p.GetExtension(13), []byte{1, 2}))
+	}
+	verifCover("C20.many.end")
+}
